@@ -42,7 +42,7 @@ def analyse(rules):
 def check_impl(rules, skip=False):
     e = policy.Enforcer(impl.new_conf(), use_conf=False)
     e.skip_undefined_check = skip
-    e.set_rules(policy.Rules.from_dict(rules, e.default_rule), use_conf=False)
+    impl.install_rules(e, rules)
     ok = e.check_rules()
     names = []
     try:
